@@ -45,6 +45,11 @@ where
         return Err(());
     }
     let scale = AsPrimitive::<F>::as_(free_weight.as_()) / normalization;
+    if !scale.is_finite() {
+        // A tiny (but normal) normalization makes the scale overflow to infinity; the
+        // cumulative distribution would then saturate (and wrap) instead of being monotonic.
+        return Err(());
+    }
 
     let mut cumulative_float = F::zero();
     let mut accumulated_slack = Probability::zero();
